@@ -273,9 +273,11 @@ RunAddPool(st, t) ==
 
 (* Cluster.on_down (the executor task) *)
 RunOnDown(st, t) ==
-    LET h == t.h IN
-    IF ClusterShut \/ h = Ctl THEN st                     \* the control host keeps its pools: always discounted
-    ELSE IF h \notin Ignored /\ \E s \in Sessions : st.pools[s][h] = "open"         \* _discount_down_events: the host stays up
+    LET h == t.h
+        connected == h = Ctl \/ (h \notin Ignored /\ \E s \in Sessions : st.pools[s][h] = "open")   \* the control host keeps its pools
+    IN
+    IF ClusterShut THEN st
+    ELSE IF connected                                                                  \* _discount_down_events: the host stays up
          THEN (IF "D2_discount_pool" \in Fixed THEN UpdAllPools(st) ELSE st)          \* repaired: sessions that lost their pool get a new one
     ELSE LET wasUp == st.up[h] = "T"
              s1 == SetDown(st, h)
@@ -452,9 +454,12 @@ Request(s) ==
     /\ act' = A("Request", NoT, s, 0, "")
     /\ UNCHANGED <<mode, peers, budget, phase>>
 
+ExecAny == \E t \in DOMAIN exec : Exec(t)
+FireAny == \E e \in DOMAIN sched : Fire(e)
+
 Next ==
-    \/ \E t \in DOMAIN exec : Exec(t)
-    \/ \E e \in DOMAIN sched : Fire(e)
+    \/ ExecAny
+    \/ FireAny
     \/ \E s \in Sessions, h \in Hosts : ConnFailure(s, h)
     \/ \E h \in Hosts, x \in {"UP", "DOWN"} : StatusEvent(h, x)
     \/ \E h \in Hosts, x \in {"NEW_NODE", "REMOVED_NODE"} : TopologyEvent(h, x)
